@@ -278,12 +278,20 @@ func (t tolerantImporter) ImportFrom(path, dir string, mode types.ImportMode) (*
 	return pk, nil
 }
 
+// newSourceImporter returns an importer that type-checks imported packages
+// from source (go/build resolves them with `go list` run in build.Default.Dir).
+// It is not safe for concurrent use.
+func newSourceImporter() types.ImporterFrom {
+	si, _ := importer.ForCompiler(token.NewFileSet(), "source", nil).(types.ImporterFrom)
+	return si
+}
+
 // analyzeDeps type-checks the package (files must carry the paths they have on
 // disk when they import anything) and fills the unit dependency graph. Type
 // errors are tolerated and recorded: unresolved selectors then add edges to
 // every method of that name, so the graph only ever grows (more cycles, more
 // skips, never a missed cycle).
-func (p *goPkg) analyzeDeps(useSourceImporter bool) {
+func (p *goPkg) analyzeDeps(srcImp types.ImporterFrom) {
 	info := &types.Info{
 		Defs:       map[*ast.Ident]types.Object{},
 		Uses:       map[*ast.Ident]types.Object{},
@@ -293,10 +301,8 @@ func (p *goPkg) analyzeDeps(useSourceImporter bool) {
 	}
 	var impErrs []string
 	ti := tolerantImporter{fake: map[string]*types.Package{}, errs: &impErrs}
-	if useSourceImporter && len(p.Imports) > 0 {
-		if si, ok := importer.ForCompiler(p.Fset, "source", nil).(types.ImporterFrom); ok {
-			ti.src = si
-		}
+	if len(p.Imports) > 0 {
+		ti.src = srcImp
 	}
 	conf := types.Config{Importer: ti, Error: func(err error) { p.TypeErrors = append(p.TypeErrors, err.Error()) }}
 	var files []*ast.File
